@@ -1,4 +1,4 @@
-import Bardolph.Proofs.JobControlInv
+import Bardolph.Proofs.JobControlEvents
 /-!
 # C08 — queued jobs run one at a time, in order, exactly once, and the queue drains
 
@@ -142,6 +142,77 @@ theorem C08_pending_start_has_owner (h : Reach .fixed progs s) (ha : s.active = 
     (hq : s.queue ≠ []) : ∃ t, obligated (s.thr t).pc = true :=
   h.inv.oblig ha hq
 
+/-! ## Exactly once -/
+
+/-- No agent is popped twice, no agent's thread is started twice, no body is entered twice. -/
+theorem C08_at_most_once (h : Reach .fixed progs s) (a : Nat) :
+    s.events.count (.start a) ≤ 1 ∧ s.events.count (.tstart a) ≤ 1 ∧
+      s.events.count (.bodyBegin a) ≤ 1 :=
+  ⟨h.evInv.startOnce a, h.evInv.tstartOnce a, h.evInv.beginOnce a⟩
+
+/-- a body is only ever entered by the thread of an agent that was popped from the queue as
+the active one (queued agents) -/
+theorem C08_body_after_start (h : Reach .fixed progs s) (a : Nat) (hq : (s.info a).bg = false)
+    (hb : early (s.thr (.job a)).pc = false) : .bodyBegin a ∈ s.events :=
+  h.evInv.beginDone a hb
+
+/-- `C08_exactly_once`: in any quiescent state, every job that was ever queued (`enq` logged)
+and was not removed by a later `clear_queue()` before it started has been executed exactly
+once: its body was entered exactly once and has ended (by returning or by raising). -/
+theorem C08_exactly_once (h : Reach .fixed progs s) (hq : Quiescent s) (a : Nat) (b : Bool)
+    (henq : .enq b a ∈ s.events) :
+    ClearedFrom [] s.events a ∨
+      (s.events.count (.start a) = 1 ∧ s.events.count (.bodyBegin a) = 1 ∧
+        ∃ r, .bodyEnd a r ∈ s.events) := by
+  have hd := C08_quiescent_drained h hq
+  have hacc := spec_accounting Spec.init _ s.events h.inv.spec a (Or.inr ⟨b, henq⟩)
+  rw [hd.1] at hacc
+  rcases hacc with hm | hst | hcl
+  · simp at hm
+  · right
+    have ev := h.evInv
+    have hnu : (s.thr (.job a)).pc ≠ .unborn := by
+      rcases ev.startSeen a hst with h1 | h1
+      · exact h1
+      · rw [hd.2.1] at h1; cases h1
+    have hdead : (s.thr (.job a)).pc = .dead := by
+      rcases hq.2 a with e | e
+      · exact absurd e hnu
+      · exact e
+    have hbeg := ev.beginDone a (by rw [hdead]; rfl)
+    have hend := ev.endDone a (by rw [hdead]; rfl) (by rw [hdead]; simp)
+    refine ⟨?_, ?_, hend⟩
+    · have := ev.startOnce a
+      have := List.count_pos_iff.mpr hst
+      omega
+    · have := ev.beginOnce a
+      have := List.count_pos_iff.mpr hbeg
+      omega
+  · exact Or.inl hcl
+
+/-- the same for background jobs: at quiescence every spawned job has run exactly once -/
+theorem C08_background_exactly_once (h : Reach .fixed progs s) (hq : Quiescent s) (a : Nat)
+    (hadd : .bgAdd a ∈ s.events) :
+    s.events.count (.bodyBegin a) = 1 ∧ (∃ r, .bodyEnd a r ∈ s.events) ∧ .bgDel a ∈ s.events := by
+  have hd := C08_quiescent_drained h hq
+  have hdel : Event.bgDel a ∈ s.events := by
+    cases Classical.em (Event.bgDel a ∈ s.events) with
+    | inl h1 => exact h1
+    | inr h1 =>
+      have := (h.bgInv.tracked a).mpr ⟨hadd, h1⟩
+      rw [hd.2.2] at this; cases this
+  have hnu := h.bgInv.delSeen a hdel
+  have hdead : (s.thr (.job a)).pc = .dead := by
+    rcases hq.2 a with e | e
+    · exact absurd e hnu
+    · exact e
+  have ev := h.evInv
+  have hbeg := ev.beginDone a (by rw [hdead]; rfl)
+  refine ⟨?_, ev.endDone a (by rw [hdead]; rfl) (by rw [hdead]; simp), hdel⟩
+  have := ev.beginOnce a
+  have := List.count_pos_iff.mpr hbeg
+  omega
+
 /-! ## A job that raises does not hold up the jobs behind it -/
 
 /-- the completion callback line is reached in the same way whether the body returns or
@@ -200,6 +271,12 @@ theorem C08_background_tracked (h : Reach .fixed progs s) (a : Nat) :
       (liveB (s.thr (.job a)).pc = true ∨ ∃ t, bstarter a (s.thr t).pc = true)) ∧
     ((s.info a).bg = true → liveB (s.thr (.job a)).pc = true → a ∈ s.bg) :=
   ⟨fun hm => ⟨(h.inv.bgInfo a hm).2, h.inv.bgWitness a hm⟩, fun hb hl => h.inv.liveBg a hl hb⟩
+
+/-- in terms of the log: an agent is in the background map exactly between the logged
+`self._background[agent.name] = agent` and the logged `del self._background[agent.name]` -/
+theorem C08_background_tracked_log (h : Reach .fixed progs s) (a : Nat) :
+    a ∈ s.bg ↔ (.bgAdd a ∈ s.events ∧ .bgDel a ∉ s.events) :=
+  h.bgInv.tracked a
 
 /-- `is_running(name)` is true iff the active agent or a member of the background map bears
 that name -/
